@@ -415,7 +415,8 @@ impl<W: Write> Session<W> {
 
     /// Ask TLC to evaluate a named relation over the current (logged) states of some slots.
     pub fn rel(&mut self, name: &str, slots: &[usize]) {
-        if slots.iter().all(|s| self.alive(*s)) {
+        // also when a slot has panicked: for some relations "one of them is dead" is itself a verdict
+        if slots.iter().all(|s| *s >= 1 && *s <= self.slots.len()) {
             let _ = write!(self.buf, "{{\"ev\":\"rel\",\"name\":\"{}\",\"slots\":{:?}}}", name, slots);
             self.emit();
         }
